@@ -230,4 +230,176 @@ theorem run_near (he : (Transc.eps : K) ≤ 1 / 10) (dbg : Bool) (ops : List Ste
     obtain ⟨p2, h2, hn2⟩ := ih p1 hn1
     exact ⟨p2, by simp [run, h1, h2, bind, Except.bind], hn2⟩
 end SE3
+
+namespace SE23
+def Near (X : SE23 K) : Prop := SO3.Near X.asSO3
+
+theorem make_ok_of_near (dbg : Bool) (t v : V3 K) {q : Quat K} (h : SO3.Near ⟨q⟩) :
+    make dbg t q v = .ok ⟨t, q, v⟩ := by
+  have := SO3.make_ok_of_near dbg (X := ⟨q⟩) h
+  unfold SO3.make at this
+  unfold make
+  cases hc : checkUnit dbg q.norm with
+  | error e => simp [hc, bind, Except.bind] at this
+  | ok u => simp [bind, Except.bind, pure, Except.pure]
+
+theorem compose_near (he : (Transc.eps : K) ≤ 1 / 10) (dbg : Bool) {X Y : SE23 K} (hX : Near X) (hY : Near Y) :
+    ∃ Z, compose dbg X Y = .ok Z ∧ Near Z := by
+  have hZ := SO3.near_composeRaw he hX hY
+  have hok : SO3.compose dbg X.asSO3 Y.asSO3 = .ok ⟨SO3.composeRaw X.asSO3 Y.asSO3⟩ := by
+    unfold SO3.compose; exact SO3.make_ok_of_near dbg (X := ⟨SO3.composeRaw X.asSO3 Y.asSO3⟩) hZ
+  unfold compose
+  simp only [hok, bind, Except.bind]
+  exact ⟨_, make_ok_of_near dbg _ _ hZ, hZ⟩
+
+theorem inverse_near (dbg : Bool) {X : SE23 K} (hX : Near X) :
+    ∃ Z, inverse dbg X = .ok Z ∧ Near Z := by
+  have hZ := SO3.near_inverse hX
+  have hok : SO3.inverse dbg X.asSO3 = .ok ⟨X.asSO3.q.conj⟩ := by
+    unfold SO3.inverse; exact SO3.make_ok_of_near dbg (X := ⟨X.asSO3.q.conj⟩) hZ
+  unfold inverse
+  simp only [hok, bind, Except.bind]
+  exact ⟨_, make_ok_of_near dbg _ _ hZ, hZ⟩
+
+inductive Step where
+  | compose (i j dst : ℕ)
+  | inverse (i dst : ℕ)
+
+def step (dbg : Bool) (pool : List (SE23 K)) : Step → Except Err (List (SE23 K))
+  | .compose i j dst =>
+    match pool[i]?, pool[j]? with
+    | some X, some Y => (compose dbg X Y).map fun Z => pool.set dst Z
+    | _, _ => .ok pool
+  | .inverse i dst =>
+    match pool[i]? with
+    | some X => (inverse dbg X).map fun Z => pool.set dst Z
+    | none => .ok pool
+
+def run (dbg : Bool) : List Step → List (SE23 K) → Except Err (List (SE23 K))
+  | [], pool => .ok pool
+  | s :: rest, pool => (step dbg pool s) >>= run dbg rest
+
+theorem step_near (he : (Transc.eps : K) ≤ 1 / 10) (dbg : Bool) (pool : List (SE23 K))
+    (h : ∀ X ∈ pool, Near X) (s : Step) :
+    ∃ pool', step dbg pool s = .ok pool' ∧ ∀ X ∈ pool', Near X := by
+  cases s with
+  | compose i j dst =>
+    rcases hi : pool[i]? with _ | X
+    · exact ⟨pool, by simp [step, hi], h⟩
+    rcases hj : pool[j]? with _ | Y
+    · exact ⟨pool, by simp [step, hi, hj], h⟩
+    · obtain ⟨Z, hok, hZ⟩ := compose_near he dbg (h X (List.mem_of_getElem? hi)) (h Y (List.mem_of_getElem? hj))
+      refine ⟨pool.set dst Z, by simp [step, hi, hj, hok, Except.map], ?_⟩
+      intro W hW
+      rcases List.mem_or_eq_of_mem_set hW with hW | hW
+      · exact h W hW
+      · rw [hW]; exact hZ
+  | inverse i dst =>
+    rcases hi : pool[i]? with _ | X
+    · exact ⟨pool, by simp [step, hi], h⟩
+    · obtain ⟨Z, hok, hZ⟩ := inverse_near dbg (h X (List.mem_of_getElem? hi))
+      refine ⟨pool.set dst Z, by simp [step, hi, hok, Except.map], ?_⟩
+      intro W hW
+      rcases List.mem_or_eq_of_mem_set hW with hW | hW
+      · exact h W hW
+      · rw [hW]; exact hZ
+
+/-- **every history of any length**: no exception, rotation part stays within `eps` of unit norm. -/
+theorem run_near (he : (Transc.eps : K) ≤ 1 / 10) (dbg : Bool) (ops : List Step) :
+    ∀ pool : List (SE23 K), (∀ X ∈ pool, Near X) →
+      ∃ pool', run dbg ops pool = .ok pool' ∧ ∀ X ∈ pool', Near X := by
+  induction ops with
+  | nil => intro pool h; exact ⟨pool, rfl, h⟩
+  | cons s rest ih =>
+    intro pool h
+    obtain ⟨p1, h1, hn1⟩ := step_near he dbg pool h s
+    obtain ⟨p2, h2, hn2⟩ := ih p1 hn1
+    exact ⟨p2, by simp [run, h1, h2, bind, Except.bind], hn2⟩
+end SE23
+
+namespace SGal3
+def Near (X : SGal3 K) : Prop := SO3.Near X.asSO3
+
+theorem make_ok_of_near (dbg : Bool) (p v : V3 K) (s : K) {q : Quat K} (h : SO3.Near ⟨q⟩) :
+    make dbg p q v s = .ok ⟨p, q, v, s⟩ := by
+  have := SO3.make_ok_of_near dbg (X := ⟨q⟩) h
+  unfold SO3.make at this
+  unfold make
+  cases hc : checkUnit dbg q.norm with
+  | error e => simp [hc, bind, Except.bind] at this
+  | ok u => simp [bind, Except.bind, pure, Except.pure]
+
+theorem compose_near (he : (Transc.eps : K) ≤ 1 / 10) (dbg : Bool) {X Y : SGal3 K} (hX : Near X) (hY : Near Y) :
+    ∃ Z, compose dbg X Y = .ok Z ∧ Near Z := by
+  have hZ := SO3.near_composeRaw he hX hY
+  have hok : SO3.compose dbg X.asSO3 Y.asSO3 = .ok ⟨SO3.composeRaw X.asSO3 Y.asSO3⟩ := by
+    unfold SO3.compose; exact SO3.make_ok_of_near dbg (X := ⟨SO3.composeRaw X.asSO3 Y.asSO3⟩) hZ
+  unfold compose
+  simp only [hok, bind, Except.bind]
+  exact ⟨_, make_ok_of_near dbg _ _ _ hZ, hZ⟩
+
+theorem inverse_near (dbg : Bool) {X : SGal3 K} (hX : Near X) :
+    ∃ Z, inverse dbg X = .ok Z ∧ Near Z := by
+  have hZ := SO3.near_inverse hX
+  have hok : SO3.inverse dbg X.asSO3 = .ok ⟨X.asSO3.q.conj⟩ := by
+    unfold SO3.inverse; exact SO3.make_ok_of_near dbg (X := ⟨X.asSO3.q.conj⟩) hZ
+  unfold inverse
+  simp only [hok, bind, Except.bind]
+  exact ⟨_, make_ok_of_near dbg _ _ _ hZ, hZ⟩
+
+inductive Step where
+  | compose (i j dst : ℕ)
+  | inverse (i dst : ℕ)
+
+def step (dbg : Bool) (pool : List (SGal3 K)) : Step → Except Err (List (SGal3 K))
+  | .compose i j dst =>
+    match pool[i]?, pool[j]? with
+    | some X, some Y => (compose dbg X Y).map fun Z => pool.set dst Z
+    | _, _ => .ok pool
+  | .inverse i dst =>
+    match pool[i]? with
+    | some X => (inverse dbg X).map fun Z => pool.set dst Z
+    | none => .ok pool
+
+def run (dbg : Bool) : List Step → List (SGal3 K) → Except Err (List (SGal3 K))
+  | [], pool => .ok pool
+  | s :: rest, pool => (step dbg pool s) >>= run dbg rest
+
+theorem step_near (he : (Transc.eps : K) ≤ 1 / 10) (dbg : Bool) (pool : List (SGal3 K))
+    (h : ∀ X ∈ pool, Near X) (s : Step) :
+    ∃ pool', step dbg pool s = .ok pool' ∧ ∀ X ∈ pool', Near X := by
+  cases s with
+  | compose i j dst =>
+    rcases hi : pool[i]? with _ | X
+    · exact ⟨pool, by simp [step, hi], h⟩
+    rcases hj : pool[j]? with _ | Y
+    · exact ⟨pool, by simp [step, hi, hj], h⟩
+    · obtain ⟨Z, hok, hZ⟩ := compose_near he dbg (h X (List.mem_of_getElem? hi)) (h Y (List.mem_of_getElem? hj))
+      refine ⟨pool.set dst Z, by simp [step, hi, hj, hok, Except.map], ?_⟩
+      intro W hW
+      rcases List.mem_or_eq_of_mem_set hW with hW | hW
+      · exact h W hW
+      · rw [hW]; exact hZ
+  | inverse i dst =>
+    rcases hi : pool[i]? with _ | X
+    · exact ⟨pool, by simp [step, hi], h⟩
+    · obtain ⟨Z, hok, hZ⟩ := inverse_near dbg (h X (List.mem_of_getElem? hi))
+      refine ⟨pool.set dst Z, by simp [step, hi, hok, Except.map], ?_⟩
+      intro W hW
+      rcases List.mem_or_eq_of_mem_set hW with hW | hW
+      · exact h W hW
+      · rw [hW]; exact hZ
+
+/-- **every history of any length**: no exception, rotation part stays within `eps` of unit norm. -/
+theorem run_near (he : (Transc.eps : K) ≤ 1 / 10) (dbg : Bool) (ops : List Step) :
+    ∀ pool : List (SGal3 K), (∀ X ∈ pool, Near X) →
+      ∃ pool', run dbg ops pool = .ok pool' ∧ ∀ X ∈ pool', Near X := by
+  induction ops with
+  | nil => intro pool h; exact ⟨pool, rfl, h⟩
+  | cons s rest ih =>
+    intro pool h
+    obtain ⟨p1, h1, hn1⟩ := step_near he dbg pool h s
+    obtain ⟨p2, h2, hn2⟩ := ih p1 hn1
+    exact ⟨p2, by simp [run, h1, h2, bind, Except.bind], hn2⟩
+end SGal3
 end Manif
